@@ -63,7 +63,8 @@ def content(tag, k, vn, target, epoch, ins):
 
 CTL_SRC = CONTENT_SRC + '''
 EPOCHS = {}    # (tag, target) -> epoch, written by the harness
-RUNLOG = []    # (tag, target, [(source tag, value, content seen)]) appended by every run()
+RUNLOG = []    # (tag, target, [(source tag, value, content seen)], epoch, outputs) appended by every run()
+HOOK = [None]  # called as HOOK[0](tag, target) when an algorithm has loaded its inputs and not yet stored
 '''
 
 TASK_SRC = '''
@@ -128,12 +129,16 @@ class Base(dawgie.Algorithm):
             for vn in (impl.VALUES if val is None else [val]):
                 ins.append((impl.TAG, vn, impl._sv[vn].x))
         epoch = None if self.INPUTS else ctl.EPOCHS.get((self.TAG, target), 0)
-        ctl.RUNLOG.append((self.TAG, target, list(ins)))
+        outs = []
+        ctl.RUNLOG.append((self.TAG, target, list(ins), epoch, outs))
+        if ctl.HOOK[0] is not None:
+            ctl.HOOK[0](self.TAG, target)   # the harness may let other units run here: a real overlap
         self._sv[self.VALUES[0]] = V(ctl.content(self.TAG, 0, self.VALUES[0], target, epoch, ins))
         if self.CHECKPOINT:
             ds.update()    # check-point: do not lose the quick product if the rest crashes
         for k, vn in enumerate(self.VALUES[1:], 1):
             self._sv[vn] = V(ctl.content(self.TAG, k, vn, target, epoch, ins))
+        outs.extend(self._sv[vn].x for vn in self.VALUES)
         ds.update()
 '''
 
@@ -363,9 +368,42 @@ class World:
         F.ARCHIVE = False
         F.insights = {}
         self.tasks = []          # task messages written by the farm
+        batch = S.next_job_batch.__wrapped__ if hasattr(S.next_job_batch, '__wrapped__') else S.next_job_batch
+
+        def released():
+            # a unit's entitlement to run is consumed when it is RELEASED (todo -> doing): whatever is
+            # reported new after that makes it pending again and entitles the next run
+            jobs = batch()
+            for j in jobs:
+                for t in sorted(j.get('do')):
+                    if (j.tag, t) not in self.cause:
+                        self.problems.append(('C02:e2e-needless-rerun',
+                                              f'{j.tag}[{t}] was released although it was not requested and none '
+                                              f'of its declared inputs was reported new since its last release'))
+                    self.cause.discard((j.tag, t))
+            return jobs
+
+        released.__wrapped__ = batch
+        P.set(S, 'next_job_batch', released)
         self.cause = set()       # (tag, target) with a reason to run: requested or an input reported new
         self.executed = []       # (tag, target, run id, [new value names])
         self.problems = []
+        self.epochs = {}         # (root tag, target) -> epoch of its source data
+        self.later_bumps = []    # root re-runs still to come
+        self.early = 0.0         # probability that the next re-run happens while a descendant is executing
+        self.hold = 0.0          # probability that a unit is slow (its message is worked a round later)
+        self.overlaps = 0
+        self.roots = {tag_of(a) for a in algs if not a['inputs']}
+        self._depth = 0
+        self._cur = {}
+        self.ctl.HOOK[0] = self._loaded
+        self.trace = []          # ops for Model/Reprocess.lean, in the order the real code performed them
+        self.obs = []            # what the real code showed after each of them
+        self.outside = None      # why this history is outside the model (None: inside)
+        self.nodes = {}
+        for r in S.ae.at:
+            for n in r.iter():
+                self.nodes[n.tag] = n
         self.consumers = {}      # 'task.alg.sv.val' -> [tags declaring it]
         for a in algs:
             for st, vn in expand_inputs(algs, a):
@@ -385,11 +423,49 @@ class World:
             shutil.rmtree(self.root, ignore_errors=True)
 
     # ------------------------------------------------------------------ driving
+    def snapshot(self):
+        return {'que': sorted({j.tag for j in self.S.que}),
+                'nodes': {tag: (sorted(n.get('todo')), sorted(n.get('doing')), n.get('status').name)
+                          for tag, n in self.nodes.items()}}
+
+    def note(self, op, **obs):
+        self.trace.append(op)
+        self.obs.append(dict(obs, snap=self.snapshot()))
+
     def organize(self, tags, targets):
         for tag in tags:
             for t in targets:
                 self.cause.add((tag, t))
         self.S.organize(list(tags), None, list(targets), 'explicit request')
+        self.note(('org', list(tags), list(targets)))
+
+    def apply_bump(self, group):
+        """new source data for some roots, and the explicit request to re-run them"""
+        for tag, t in group:
+            self.epochs[(tag, t)] = self.epochs.get((tag, t), 0) + 1
+            self.ctl.EPOCHS[(tag, t)] = self.epochs[(tag, t)]
+            self.note(('poke', tag, t, self.epochs[(tag, t)]))
+            self.organize([tag], [t])
+
+    def _loaded(self, tag, target):
+        """an algorithm has loaded its inputs (real Task.do) and has not stored yet"""
+        e = self.ctl.RUNLOG[-1]
+        self._cur[(tag, target)] = e
+        self.note(('read', tag, target), ins=list(e[2]), epoch=e[3])
+        if (self._depth == 0 and self.later_bumps and tag not in self.roots
+                and self.rng.random() < self.early):
+            # overlap: the roots are re-run, and their results handled, while this unit is executing
+            self._depth += 1
+            try:
+                self.overlaps += 1
+                self.apply_bump(self.later_bumps.pop(0))
+                self.tick()
+                mine = [m for m in self.tasks if m.jobid in self.roots]
+                self.tasks[:] = [m for m in self.tasks if m.jobid not in self.roots]
+                for m in mine:
+                    self.work(m)
+            finally:
+                self._depth -= 1
 
     def tick(self):
         F = self.F
@@ -399,17 +475,14 @@ class World:
             hand.transport = _Wire(self.tasks)
             F._workers.append(hand)  # pylint: disable=protected-access
         F.dispatch()
+        self.note(('disp',))
 
     def work(self, m):
         """what pl/worker/cluster.py:execute does with a task message, then the farm's `_res`"""
         d, M = self.d, self.M
         unit = (m.jobid, m.target)
-        if unit not in self.cause:
-            self.problems.append(('C02:e2e-needless-rerun',
-                                  f'{m.jobid}[{m.target}] was run (run id {m.runid}) although it was not requested and '
-                                  f'none of its declared inputs was reported new since its last run'))
-        self.cause.discard(unit)
         ctxt = d.pl.worker.Context(('sim', 0), d.context.git_rev)
+        self._cur.pop(unit, None)
         try:
             factory = getattr(importlib.import_module(m.factory[0]), m.factory[1])
             nv = ctxt.run(factory, 0, m.jobid, m.runid, m.target, m.timing)
@@ -428,22 +501,47 @@ class World:
             parts = n.split('.')
             for c in self.consumers.get('.'.join(parts[2:]), []):
                 self.cause.add((c, parts[1]))
+        e = self._cur.pop(unit, None)
+        if r.success is not True or e is None:
+            self.outside = self.outside or f'{m.jobid}[{m.target}] did not succeed with one run() call'
+        else:
+            self.note(('write', m.jobid, m.target, list(e[4])), new=list(new))
         self.F.Hand._res(r)  # pylint: disable=protected-access
+        self.note(('reply', m.jobid, m.target, m.runid))
 
     def pending(self):
         return {j.tag: (sorted(j.get('todo')), sorted(j.get('doing'))) for j in self.S.que
                 if j.get('todo') or j.get('doing')}
 
-    def drain(self, limit=60):
+    def drain(self, limit=200):
         for _ in range(limit):
             self.tick()
             if not self.tasks:
                 return not self.pending()
             batch, self.tasks[:] = list(self.tasks), []
             self.rng.shuffle(batch)  # completion order
+            if self.hold and len(batch) > 1:
+                # slow units: their messages are worked in a later round, after whatever happens meanwhile
+                slow = {id(m) for m in batch[1:] if self.rng.random() < self.hold}
+                self.tasks.extend(m for m in batch if id(m) in slow)
+                batch = [m for m in batch if id(m) not in slow]
             for m in batch:
+                if self.later_bumps and self.early and self.rng.random() < self.early / 2:
+                    self.apply_bump(self.later_bumps.pop(0))   # new source data arrives at any time
                 self.work(m)
         return False
+
+    def script(self, steps):
+        """explicit control of who is slow: ('tick',), ('work', tag), ('bump', tag, target)"""
+        for st in steps:
+            if st[0] == 'tick':
+                self.tick()
+            elif st[0] == 'bump':
+                self.apply_bump([(st[1], st[2])])
+            elif st[0] == 'work':
+                m = [m for m in self.tasks if m.jobid == st[1]][0]
+                self.tasks.remove(m)
+                self.work(m)
 
     # ------------------------------------------------------------------ observation
     def stored(self):
@@ -461,7 +559,7 @@ class World:
 
 
 # ---------------------------------------------------------------------------- one scenario
-def run_scenario(store, sc, seed=0):
+def run_scenario(store, sc, seed=0, model=None):
     """sc = {'algs': [...], 'targets': [...], 'bumps': [[root tag, target], ...] or [[...], [...]] groups}
     returns (problems, stats)"""
     import random
@@ -473,17 +571,13 @@ def run_scenario(store, sc, seed=0):
     w = World(store, algs, targets, random.Random(f'{seed}:order'), bool(sc.get('real_metrics')))
     stats = collections.Counter()
     try:
-        epochs = {}
-        phases = [('initial', None)] + [('bump', b) for b in sc['bumps']]
-        for what, b in phases:
-            if what == 'initial':
-                w.organize([tag_of(a) for a in algs], targets)
-            else:
-                group = b if b and isinstance(b[0], list) else [b]
-                for tag, t in group:
-                    epochs[(tag, t)] = epochs.get((tag, t), 0) + 1
-                    w.ctl.EPOCHS[(tag, t)] = epochs[(tag, t)]
-                    w.organize([tag], [t])
+        w.later_bumps = [[tuple(x) for x in (b if b and isinstance(b[0], list) else [b])] for b in sc['bumps']]
+        w.early = float(sc.get('overlap', 0))
+        w.hold = float(sc.get('hold', 0))
+        w.organize([tag_of(a) for a in algs], targets)
+        w.script([tuple(s) for s in sc.get('script', [])])
+        what, b = 'initial', None
+        while True:
             n0 = len(w.executed)
             quiet = w.drain()
             stats['executions'] += len(w.executed) - n0
@@ -492,8 +586,9 @@ def run_scenario(store, sc, seed=0):
                 w.problems.append(('C02:e2e-no-quiescence',
                                    f'after {what} {b}: still pending {w.pending()} / queued {len(w.tasks)}'))
                 break
-            want = from_scratch(algs, targets, epochs)
+            want = from_scratch(algs, targets, w.epochs)
             got = w.stored()
+            w.note(('check',), stored=dict(got), want=dict(want))
             bad = sorted(k for k in want if got.get(k) != want[k])
             if bad:
                 k = bad[0]
@@ -503,7 +598,15 @@ def run_scenario(store, sc, seed=0):
                                    f'run, e.g. {k[1]}.sv.{k[2]} on {k[0]}: stored {got.get(k)!r}, from scratch {want[k]!r}; '
                                    f'ran in this phase: {ran}'))
                 break
+            if not w.later_bumps:
+                break
+            what, b = 'bump', w.later_bumps.pop(0)
+            w.apply_bump(b)
+        stats['overlaps'] += w.overlaps
         stats['new_reports'] += sum(len(e[3]) for e in w.executed)
+        if model is not None:
+            from . import c02_model
+            model.append(c02_model.case_of(w, sc))
         return w.problems, stats
     finally:
         w.close()
@@ -522,6 +625,33 @@ def seed3_shape():
     ]
     return {'algs': algs, 'targets': ['T1', 'T2'], 'real_metrics': True,
             'bumps': [['demo.P', 'T1'], ['demo.P', 'T1'], ['demo.P', 'T2']]}
+
+
+def overlap_shape():
+    """root -> B -> C; the root is re-run, and its result handled, while B is executing what it
+    loaded from the previous run (a real overlap through the algorithm's HOOK)"""
+    algs = [
+        {'task': 'demo', 'name': 'R', 'values': ['r'], 'inputs': [], 'checkpoint': False},
+        {'task': 'demo', 'name': 'B', 'values': ['b'], 'inputs': [(0, 'r')], 'checkpoint': False},
+        {'task': 'demo', 'name': 'C', 'values': ['c'], 'inputs': [(1, 'b')], 'checkpoint': False},
+    ]
+    return {'algs': algs, 'targets': ['T1'], 'overlap': 1.0,
+            'bumps': [['demo.R', 'T1'], ['demo.R', 'T1'], ['demo.R', 'T1']]}
+
+
+def slow_sibling_shape():
+    """two roots P, Q and N consuming both.  P and Q start in the same run; P finishes, gets new
+    source data, is re-run (a newer run id) and finishes again while Q of the OLD run is still
+    executing; only then Q reports.  (Before the repair of schedule.organize N then ran once with the old
+    run id, loaded P's old version by exact run id and left a stale result at quiescence.)"""
+    algs = [
+        {'task': 'demo', 'name': 'P', 'values': ['p'], 'inputs': [], 'checkpoint': False},
+        {'task': 'demo', 'name': 'Q', 'values': ['q'], 'inputs': [], 'checkpoint': False},
+        {'task': 'demo', 'name': 'N', 'values': ['n'], 'inputs': [(0, 'p'), (1, 'q')], 'checkpoint': False},
+    ]
+    return {'algs': algs, 'targets': ['T1'], 'bumps': [['demo.Q', 'T1']],
+            'script': [['tick'], ['work', 'demo.P'], ['bump', 'demo.P', 'T1'], ['tick'], ['work', 'demo.P'],
+                       ['work', 'demo.Q']]}
 
 
 def gen_scenario(r, small=False):
@@ -584,6 +714,31 @@ def run(ctx, res):
         res.count('e2e:unit-executions', stats['executions'])
         res.count('e2e:quiescence-comparisons', stats['phases'])
         res.count('e2e:values-reported-new', stats['new_reports'])
+        res.count('e2e:overlaps', stats['overlaps'])
+    # correspondence with Model/Reprocess.lean (theorem C02.quiescent_fresh): the same scenarios with one
+    # ds.update() per run (check-pointing = several stores by one execution is outside the model)
+    if ctx.get('lean'):
+        from . import c02_model
+        model = []
+        plain = [overlap_shape(), slow_sibling_shape()]
+        for i, sc in enumerate(scenarios):
+            base = dict(sc, algs=[dict(a, checkpoint=False) for a in sc['algs']])
+            plain.append(dict(base, overlap=0.6 if i % 2 == 0 else 0, hold=0.4 if i % 3 else 0))
+            if thorough:
+                plain.append(dict(base, overlap=0 if i % 2 == 0 else 1.0, hold=0.5))
+        for sc in (plain if thorough else plain[:7]):
+            problems, stats = run_scenario(store, _norm(sc), ctx['seed'], model=model)
+            for sig, what in problems:
+                res.hit(sig, what, {'kind': 'e2e', 'scenario': sc, 'seed': ctx['seed']})
+            res.case(('e2e-plain', repr(sc)), nontrivial=stats['executions'] > len(sc['algs']) * len(sc['targets']))
+            res.count('e2e:scenario-single-store')
+            res.count('e2e:overlaps', stats['overlaps'])
+        inside = [c for c in model if not c['outside']]
+        res.count('model:histories-outside', len(model) - len(inside))
+        outs = common.driver([c['line'] for c in inside], 'Sched')
+        for c, o in zip(inside, outs):
+            c02_model.compare(res, c, o)
+            res.traces += 1
     res.assumptions.append('C02 end to end: sockets, Context.abort, fsm, chronicle and the md5sum/sha1sum '
                            'sub-processes are replaced (hashlib); tasks only, no analyses')
 
